@@ -1164,8 +1164,25 @@ def main():
     return rep.finish()
 
 
+_SIDE = []
+
+
+def kill_side():
+    """terminate side processes (and the TLC JVMs they started) that are still around, e.g. after a failure"""
+    import signal
+    for p in _SIDE:
+        if p.is_alive():
+            try:
+                os.killpg(p.pid, signal.SIGKILL)
+            except OSError:
+                pass
+            p.join(10)
+    del _SIDE[:]
+
+
 def _tlc_child(jobs, conn):
     out = {}
+    os.setsid()          # own process group: kill_side() reaches the JVMs too
     try:
         with ThreadPoolExecutor(len(jobs)) as ex:
             fs = {name: ex.submit(tlc.run, *args, **kw) for name, args, kw in jobs}
@@ -1185,9 +1202,10 @@ def tlc_jobs(jobs):
     returns a function that waits for {name: TlcResult}"""
     ctx = mp.get_context("fork")
     parent, child = ctx.Pipe(False)
-    p = ctx.Process(target=_tlc_child, args=(jobs, child))
+    p = ctx.Process(target=_tlc_child, args=(jobs, child), daemon=True)
     p.start()
     child.close()
+    _SIDE.append(p)
 
     def get():
         st, val = parent.recv()
@@ -1302,5 +1320,13 @@ def do_replay(a, rep):
     return rep.finish()
 
 
+def guarded_main():
+    try:
+        return main()
+    finally:
+        kill_side()
+        sweep_scratch()
+
+
 if __name__ == "__main__":
-    evidence.main_wrapper(main)
+    evidence.main_wrapper(guarded_main)
